@@ -29,22 +29,23 @@ ALLOWED_TOL = {("convex_combination", "np.isclose(norms, 0)"):
 
 
 def allow(ev):
-    if ev.d.get("sub") == "literal" and ev.fn.name == "get_P_from_A" and "np.ones" in ev.text():
+    if ev.d.get("sub") == "literal" and ev.fn.name == "get_P_from_A" and "lb" in ev.text():      # `1 + lb` in any spelling
         return "unit generators of the unbounded cone (a cone does not depend on the length of its generators)"
     return None
 
 
 def tolerances(rep, res, entry):
     for ev in res.events("abs_tolerance"):
-        key = (ev.fn.name, ev.text())
+        from ..engine import structural_key
+        key = (ev.fn.name, structural_key(ev.text()))
         if not ev.d.get("dimensioned"):
             ops = ev.d["operands"]
             if all(o.unit is None for o in ops if not o.known):
                 rep.undecided("R-QTY", "no absolute tolerance on a dimensioned quantity", where=ev.loc, construct=ev.text(), entry=entry,
                               config=res.config)
             continue
-        if key in ALLOWED_TOL:
-            rep.advisory(f"enumerated scale-dependent site {ev.loc} `{ev.text()}` — {ALLOWED_TOL[key]}")
+        if key in {(f_, structural_key(t_)): r_ for (f_, t_), r_ in ALLOWED_TOL.items()}:
+            rep.advisory(f"enumerated scale-dependent site {ev.loc} `{ev.text()}` — " + {(f_, structural_key(t_)): r_ for (f_, t_), r_ in ALLOWED_TOL.items()}[key])
             rep.holds("R-QTY", "scale-dependent site is an enumerated one", where=ev.loc, construct=ev.text(), entry=entry, config=res.config)
             continue
         rep.violated("R-QTY", "no absolute tolerance on a dimensioned quantity", where=ev.loc, construct=ev.text(), entry=entry,
